@@ -73,7 +73,10 @@ func checkEthHeadPointer(c *core.Ctx) {
 	}
 	// the pointer value is the height argument
 	okVal := false
-	for _, ci := range ir.Calls(fn, func(ci ssa.CallInstruction) bool { o := ir.CalleeObj(ci); return o != nil && o.Name() == "Put" && litOf(ci) == constant.StringVal(curLit) }) {
+	for _, ci := range ir.Calls(fn, func(ci ssa.CallInstruction) bool {
+		o := ir.CalleeObj(ci)
+		return o != nil && o.Name() == "Put" && litOf(ci) == constant.StringVal(curLit)
+	}) {
 		if g := calleeNamed(ci.Common().Args[2], "GenRawStorageItem"); g != nil {
 			if u := calleeNamed(g.Common().Args[0], "GetUint64Bytes"); u != nil && ir.Strip(u.Common().Args[0]) == ssa.Value(heightP) {
 				okVal = true
